@@ -1399,4 +1399,142 @@ theorem prune_loop : ∀ (L : List (Node × Node)) (trR : List (Nat × Nat × Na
         rw [pruneK_snoc_empty k ks' _ _ htpX]
         rw [lookup_of_findBinding Xvs k i ne _ bf af hXn hfb]; rfl
 
+/-- `require_root` only changes how a failed walk is reported -/
+theorem go_rr (ln : Bool) (ks : List Text) : ∀ (cur : Node) (acc st : List (Node × Node)),
+    walkAttrpathStack.go ln false cur acc ks = .ok (some st) →
+    walkAttrpathStack.go ln true cur acc ks = .ok (some st) := by
+  induction ks with
+  | nil => intro cur acc st h; rw [walkAttrpathStack.go.eq_1] at h ⊢; exact h
+  | cons k ks ih =>
+    intro cur acc st h
+    cases ks with
+    | nil =>
+      rw [walkAttrpathStack.go.eq_2] at h ⊢
+      cases hf : findNamedBinding cur.setValues k (some ln) with
+      | none => simp [hf] at h
+      | some b => simpa [hf] using h
+    | cons k2 ks2 =>
+      rw [walkAttrpathStack.go.eq_3 _ _ _ _ _ _ (by simp)] at h ⊢
+      cases hf : findNamedBinding cur.setValues k (some true) with
+      | none => simp [hf] at h
+      | some b =>
+        simp only [hf] at h ⊢
+        cases hv : b.bindValue? with
+        | none => simp [hv] at h
+        | some v =>
+          cases v with
+          | set s2 vs2 o2 m2 r2 => simp only [hv] at h ⊢; exact ih _ _ _ h
+          | _ => simp [hv] at h
+
+theorem walk_rr (ts : Node) (segs : List Text) (ln : Bool) (st : List (Node × Node))
+    (h : walkAttrpathStack ts segs ln false = .ok (some st)) :
+    walkAttrpathStack ts segs ln true = .ok (some st) := by
+  unfold walkAttrpathStack at h ⊢
+  cases segs with
+  | nil => simp at h
+  | cons root rest =>
+    cases rest with
+    | nil => simp at h
+    | cons k2 ks2 =>
+      simp only at h ⊢
+      cases hf : findAttrpathRoot ts.setValues root with
+      | none => simp [hf] at h
+      | some b =>
+        simp only [hf] at h ⊢
+        cases hv : b.bindValue? with
+        | none => simp [hv] at h
+        | some v =>
+          cases v with
+          | set s2 vs2 o2 m2 r2 => simp only [hv] at h ⊢; exact go_rr ln _ _ _ _ h
+          | _ => simp [hv] at h
+
+theorem Loc_top_congr (T T' : Node) (ks : List Text) (tr : List (Nat × Nat × Nat))
+    (h1 : T'.setSid? = T.setSid?) (h2 : T'.setValues = T.setValues) (h : Loc T ks tr) : Loc T' ks tr := by
+  cases ks with
+  | nil => cases tr with
+    | nil => trivial
+    | cons a b => simp [Loc] at h
+  | cons k r => cases tr with
+    | nil => simp [Loc] at h
+    | cons a b =>
+      obtain ⟨c, i, c'⟩ := a
+      simp only [Loc] at h ⊢
+      rw [h1, h2]; exact h
+
+theorem StackIds_snoc (A : List (Node × Node)) : ∀ (B : List (Nat × Nat × Nat)) (x : Node × Node) (y : Nat × Nat × Nat),
+    StackIds A B → StackIds [x] [y] → StackIds (A ++ [x]) (B ++ [y]) := by
+  induction A with
+  | nil =>
+    intro B x y h hx
+    cases B with
+    | nil => exact hx
+    | cons a b => simp [StackIds] at h
+  | cons a r ih =>
+    intro B x y h hx
+    cases B with
+    | nil => obtain ⟨P, Bn⟩ := a; simp [StackIds] at h
+    | cons b bs =>
+      obtain ⟨P, Bn⟩ := a
+      obtain ⟨c, i, c'⟩ := b
+      simp only [List.cons_append, StackIds] at h ⊢
+      exact ⟨h.1, h.2.1, h.2.2.1, ih bs x y h.2.2.2 hx⟩
+
+/-- identities along an attrpath chain: the stale stack and the tree agree -/
+theorem chain_ids (ks : List Text) : ∀ (P : Node) (st : List (Node × Node)), ks ≠ [] →
+    Chain false P ks st → P.isSet = true → famOK P = true →
+    ∃ tr, tr.length = ks.dropLast.length ∧ Loc P ks.dropLast tr ∧ StackIds st.dropLast.reverse tr.reverse := by
+  induction ks with
+  | nil => intro P st h; exact absurd rfl h
+  | cons k ks ih =>
+    intro P st _ hc hP hfam
+    cases ks with
+    | nil =>
+      obtain ⟨i, val, bf, af, rfl, hf⟩ := hc
+      exact ⟨[], rfl, trivial, trivial⟩
+    | cons k2 ks2 =>
+      obtain ⟨i, s, vs, o, m, r, bf, af, rest, rfl, hf, hc'⟩ := hc
+      obtain ⟨c, pvs, po, pm, pr, rfl⟩ := (isSet_iff P).mp hP
+      have hm : Node.bind i k true (.set s vs o m r) bf af ∈ pvs := by
+        obtain ⟨_, _, _, _, _, pre, post, _, hvs, _⟩ := findBinding_some _ _ _ hf
+        simp only [setValues] at hvs; rw [hvs]; simp
+      obtain ⟨s2, vs2, m2, r2, e, hfam2⟩ := famSet_child c pvs po pm pr i k _ bf af hfam hm
+      obtain ⟨tr', hl', hloc', hst'⟩ := ih (.set s vs o m r) rest (by simp) hc' rfl hfam2.2
+      have hrest : rest ≠ [] := by
+        intro e2; subst e2
+        cases ks2 with
+        | nil => obtain ⟨_, _, _, _, h, _⟩ := hc'; cases h
+        | cons a b => obtain ⟨_, _, _, _, _, _, _, _, _, h, _⟩ := hc'; cases h
+      refine ⟨(c, i, s) :: tr', by simp [List.dropLast_cons_cons, hl'], ?_, ?_⟩
+      · rw [List.dropLast_cons_cons]
+        exact ⟨rfl, true, _, bf, af, hf, rfl, hfam2.1, hloc'⟩
+      · have : ((Node.set c pvs po pm pr, Node.bind i k true (.set s vs o m r) bf af) :: rest).dropLast =
+            (Node.set c pvs po pm pr, Node.bind i k true (.set s vs o m r) bf af) :: rest.dropLast := by
+          cases rest with
+          | nil => exact absurd rfl hrest
+          | cons a b => rfl
+        rw [this, List.reverse_cons, List.reverse_cons]
+        exact StackIds_snoc _ _ _ _ hst' ⟨rfl, rfl, ⟨vs, o, m, r, rfl⟩, trivial⟩
+
+/-- delete the first `_AttrpathEntry` whose binding is `lid` -/
+def entF (lid : Nat) : Node → Node
+  | .set s vs o m r =>
+      .set s vs (o.eraseP fun n => match n with
+        | .entry _ l _ _ => l.bindId? == some lid
+        | _ => false) m r
+  | n => n
+
+theorem entF_shrinks (lid : Nat) : Shrinks (entF lid) :=
+  fun _ vs _ _ _ => ⟨_, _, rfl, List.Sublist.refl vs, List.eraseP_sublist⟩
+theorem entF_orderOnly (lid : Nat) : ∀ s vs o m r, ∃ o', entF lid (.set s vs o m r) = .set s vs o' m r :=
+  fun _ _ _ _ _ => ⟨_, rfl⟩
+
+theorem removeAttrpathValue_eq (ts : Node) (segs : List Text) (st : List (Node × Node)) (parent leaf : Node)
+    (tsSid psid lid : Nat) (d : Doc)
+    (h1 : walkAttrpathStack ts segs false true = .ok (some st)) (h2 : st.getLast? = some (parent, leaf))
+    (h3 : ts.setSid? = some tsSid) (h4 : parent.setSid? = some psid) (h5 : leaf.bindId? = some lid) :
+    removeAttrpathValue ts segs d =
+      pruneParents st.dropLast.reverse ((d.updSet psid (eraseV lid)).updSet tsSid (entF lid)) := by
+  simp only [removeAttrpathValue, h1, h2, h3, h4, h5, EditM.bind_apply, removeValueById_eq, EditM.modify_apply]
+  rfl
+
 end Nima
